@@ -300,6 +300,15 @@ func (tx *Tx) Commit() error {
 	if !tx.writable {
 		return ErrTxNotWritable
 	}
+	symRaceExempt(true)
+	fault := commitFaults[tx.db.path]
+	symRaceExempt(false)
+	if fault {
+		// an injected write fault: the commit fails and the transaction is rolled back
+		tx.done = true
+		tx.db.rwlock.Unlock()
+		return errors.New("write " + tx.db.path + ": bad file descriptor (injected write fault)")
+	}
 	// values were kept by reference until now: copy them at commit time
 	for _, bd := range tx.root.buckets {
 		for i := range bd.entries {
@@ -609,6 +618,26 @@ func ModelRestore(src string, i int, dst string) {
 	d.commits = []*store{d.st}
 	symSetFileKind(dst, 3)
 	d.gen = symFileGen(dst)
+}
+
+var commitFaults = map[string]bool{}
+
+// ModelCommitFault switches an injected write fault for the database file at path on or off:
+// while on, every Commit of a writable transaction on it fails and rolls back.
+func ModelCommitFault(path string, on bool) {
+	symRaceExempt(true)
+	commitFaults[path] = on
+	symRaceExempt(false)
+}
+
+// ModelMakeEmpty makes path a freshly initialised database without any bucket (what bbolt.Open
+// followed by Close leaves behind).
+func ModelMakeEmpty(path string) {
+	fs := fileFor(path)
+	fs.st = &store{}
+	fs.commits = []*store{fs.st}
+	symSetFileKind(path, 3)
+	fs.gen = symFileGen(path)
 }
 
 // ModelRename follows os.Rename: the content (and the lock, which belongs to the file, not to
